@@ -2,7 +2,6 @@ from __future__ import annotations
 
 from datetime import timedelta
 from typing import TYPE_CHECKING
-from typing import cast
 from typing import overload
 
 import pendulum
@@ -41,6 +40,16 @@ def _divide_and_round(a: float, b: float) -> int:
         q += 1
 
     return q
+
+
+def _to_microseconds(delta: timedelta) -> int:
+    if isinstance(delta, Duration):
+        return delta._to_microseconds()
+
+    # A native timedelta does not provide _to_microseconds()
+    return (delta.days * SECONDS_PER_DAY + delta.seconds) * US_PER_SECOND + (
+        delta.microseconds
+    )
 
 
 class Duration(timedelta):
@@ -394,9 +403,7 @@ class Duration(timedelta):
 
         usec = self._to_microseconds()
         if isinstance(other, timedelta):
-            return cast(
-                int, usec // other._to_microseconds()  # type: ignore[attr-defined]
-            )
+            return usec // _to_microseconds(other)
 
         if isinstance(other, int):
             return self.__class__(
@@ -421,9 +428,7 @@ class Duration(timedelta):
 
         usec = self._to_microseconds()
         if isinstance(other, timedelta):
-            return cast(
-                float, usec / other._to_microseconds()  # type: ignore[attr-defined]
-            )
+            return usec / _to_microseconds(other)
 
         if isinstance(other, int):
             return self.__class__(
@@ -449,7 +454,7 @@ class Duration(timedelta):
 
     def __mod__(self, other: timedelta) -> Self:
         if isinstance(other, timedelta):
-            r = self._to_microseconds() % other._to_microseconds()  # type: ignore[attr-defined] # noqa: E501
+            r = self._to_microseconds() % _to_microseconds(other)
 
             return self.__class__(0, 0, r)
 
@@ -459,7 +464,7 @@ class Duration(timedelta):
         if isinstance(other, timedelta):
             q, r = divmod(
                 self._to_microseconds(),
-                other._to_microseconds(),  # type: ignore[attr-defined]
+                _to_microseconds(other),
             )
 
             return q, self.__class__(0, 0, r)
